@@ -363,3 +363,74 @@ Print Assumptions C06_example_queued_disinvite_resume.
 Print Assumptions C06_example_final.
 Print Assumptions C06_example_held_join_history.
 Print Assumptions C06_example_attached_session_expiring_rejected.
+
+(* ---- the attachment invariant, for every history (proofs/Hub_attach.v) -----------------------------------------
+   The model-side statements of the trace-predicate clauses expiring_unattached / clients_attached and of the tick
+   clause of step_C06, in every state reachable from the initial state by any history of operations (any limits,
+   gated media server or not, step-by-step runs - every delivery order of the bus and every interleaving of the media
+   server's completions is such a history - or quiescent runs). *)
+From Verif Require proofs.Hub_own proofs.Hub_attach.
+
+(* A session that has a connection is in the clients table and not in the expiry list; that connection exists, is
+   attached to exactly this session and does not wait for a hello. *)
+Theorem C06_attached_not_expiring : forall limits gated ops h sid s c,
+  h = run (init limits gated) ops \/ h = qrun (init limits gated) ops ->
+  get_sess h sid = Some s -> s.(s_conn) = Some c ->
+  In sid h.(h_clients) /\ ~ In sid h.(h_expired) /\
+  exists cn, aget h.(h_conns) c = Some cn /\ cn.(c_sess) = Some sid /\ cn.(c_expect) = false.
+Proof. intros limits gated ops h sid s c R. exact (Hub_attach.attached_not_expiring h sid s c (Hub_own.reachable_intro limits gated ops h R)). Qed.
+(* A session in the expiry list is live and has no connection. *)
+Theorem C06_expiring_has_no_connection : forall limits gated ops h sid,
+  h = run (init limits gated) ops \/ h = qrun (init limits gated) ops ->
+  In sid h.(h_expired) -> exists s, get_sess h sid = Some s /\ s.(s_conn) = None.
+Proof. intros limits gated ops h sid R. exact (Hub_attach.expiring_unattached_state h sid (Hub_own.reachable_intro limits gated ops h R)). Qed.
+(* The bridge: on the digest of every reachable model state both clauses of the trace predicates are true. *)
+Theorem C06_attachment_clauses_on_model_digest : forall limits gated ops h,
+  h = run (init limits gated) ops \/ h = qrun (init limits gated) ops ->
+  expiring_unattached (digest_of h) = true /\ clients_attached (digest_of h) = true.
+Proof.
+  intros limits gated ops h R. pose proof (Hub_own.reachable_intro limits gated ops h R) as R'.
+  split; [exact (Hub_attach.expiring_unattached_digest h R')|exact (Hub_attach.clients_attached_digest h R')].
+Qed.
+(* A connected session that is not in the anonymous list survives a housekeeping tick, whatever the number of
+   seconds: afterwards it is live, with the same connection, in the same room (and of the same kind).  Anonymous
+   sessions waiting for a room are the exception: they are told and closed (C06_example_attachment below). *)
+Theorem C06_connected_survives_tick : forall limits gated ops h secs sid s c,
+  h = run (init limits gated) ops \/ h = qrun (init limits gated) ops ->
+  get_sess h sid = Some s -> s.(s_conn) = Some c -> ~ In sid h.(h_anonymous) ->
+  exists s', get_sess (fst (step h (OTick secs))) sid = Some s' /\ s'.(s_conn) = Some c /\ s'.(s_room) = s.(s_room) /\
+             s'.(s_kind) = s.(s_kind).
+Proof. intros limits gated ops h secs sid s c R. exact (Hub_attach.connected_survives_tick h secs sid s c (Hub_own.reachable_intro limits gated ops h R)). Qed.
+(* The same as the tick clause of step_C06 reads it: on the digests before and after the model's tick. *)
+Theorem C06_tick_clause_on_model_digests : forall limits gated ops h secs,
+  h = run (init limits gated) ops \/ h = qrun (init limits gated) ops ->
+  forallb (fun x => is_virtual_d x || negb (has_conn x) || nmem x.(d_sid) (digest_of h).(g_anonymous) ||
+                    match find_sd (digest_of (fst (step h (OTick secs)))) x.(d_sid) with
+                    | Some y => optN_eqb y.(d_conn) x.(d_conn) && opt_pair_eqb y.(d_room) x.(d_room)
+                    | None => false end) (digest_of h).(g_sessions) = true.
+Proof. intros limits gated ops h secs R. exact (Hub_attach.tick_clause_digest h secs (Hub_own.reachable_intro limits gated ops h R)). Qed.
+(* Not vacuous: a computed history with a cut (session 2 waits for expiry, no connection, not in the clients table), a
+   tick of 20 s (nothing changes), a resume on connection 3 (in the clients table, not expiring, connection 3 attached)
+   and a tick of 40 s (both connected sessions still there, same connections, same room); without the resume the
+   tick of 40 s ends session 2; a connected anonymous session (3, connection 5) is ended by it. *)
+Example C06_example_attachment :
+  Hub_attach.at_view (run (init [0; 0] false) Hub_attach.at_ops) =
+    ([1], [2], [], [(1, Some 1, false)], [(1, Some 1, Some (0, 1)); (2, None, Some (0, 1))]) /\
+  Hub_attach.at_view (run (init [0; 0] false) (Hub_attach.at_ops ++ [OTick 20])) = Hub_attach.at_view (run (init [0; 0] false) Hub_attach.at_ops) /\
+  Hub_attach.at_view (run (init [0; 0] false) (Hub_attach.at_ops ++ Hub_attach.at_resume)) =
+    ([1; 2], [], [], [(1, Some 1, false); (3, Some 2, false)], [(1, Some 1, Some (0, 1)); (2, Some 3, Some (0, 1))]) /\
+  Hub_attach.at_view (run (init [0; 0] false) (Hub_attach.at_ops ++ Hub_attach.at_resume ++ [OTick 40])) =
+    Hub_attach.at_view (run (init [0; 0] false) (Hub_attach.at_ops ++ Hub_attach.at_resume)) /\
+  Hub_attach.at_view (run (init [0; 0] false) (Hub_attach.at_ops ++ [OTick 40])) =
+    ([1], [], [], [(1, Some 1, false)], [(1, Some 1, Some (0, 1))]) /\
+  Hub_attach.at_view (run (init [0; 0] false) (Hub_attach.at_ops ++ [OConnect 5 0; OHello 5 (HV1 0 0 false)])) =
+    ([1; 3], [2], [3], [(1, Some 1, false); (5, Some 3, false)], [(1, Some 1, Some (0, 1)); (2, None, Some (0, 1)); (3, Some 5, None)]) /\
+  Hub_attach.at_view (run (init [0; 0] false) (Hub_attach.at_ops ++ [OConnect 5 0; OHello 5 (HV1 0 0 false); OTick 40])) =
+    ([1], [], [], [(1, Some 1, false)], [(1, Some 1, Some (0, 1))]).
+Proof. exact Hub_attach.at_example. Qed.
+Print Assumptions C06_attached_not_expiring.
+Print Assumptions C06_expiring_has_no_connection.
+Print Assumptions C06_attachment_clauses_on_model_digest.
+Print Assumptions C06_connected_survives_tick.
+Print Assumptions C06_tick_clause_on_model_digests.
+Print Assumptions C06_example_attachment.
